@@ -743,7 +743,8 @@ impl OsIpcOneShotServer {
         unsafe {
             let sockaddr: *mut sockaddr = ptr::null_mut();
             let sockaddr_len: *mut socklen_t = ptr::null_mut();
-            let client_fd = libc::accept(self.fd, sockaddr, sockaddr_len);
+            // `accept4` so that the new descriptor is close-on-exec, like all the others we create.
+            let client_fd = libc::accept4(self.fd, sockaddr, sockaddr_len, SOCK_FLAGS);
             if client_fd < 0 {
                 return Err(UnixError::last());
             }
@@ -864,7 +865,9 @@ impl Drop for OsIpcSharedMemory {
 impl Clone for OsIpcSharedMemory {
     fn clone(&self) -> OsIpcSharedMemory {
         unsafe {
-            let store = BackingStore::from_fd(libc::dup(self.store.fd()));
+            // Duplicate with close-on-exec set, like all the other descriptors we create.
+            let store =
+                BackingStore::from_fd(libc::fcntl(self.store.fd(), libc::F_DUPFD_CLOEXEC, 0));
             let (address, _) = store.map_file(Some(self.length));
             OsIpcSharedMemory::from_raw_parts(address, self.length, store)
         }
